@@ -114,6 +114,15 @@ def eligUB (e : Env) (t : Nat) : Bool :=
 def exhaustedB (e : Env) (σ : St) (t r : Nat) (i : Int) : Bool :=
   (resLimitIds e r).any (fun lid => !limitOk e σ lid i none) || (taskLimitIds e t).any (fun lid => !limitOk e σ lid i (some r))
 
+/-- decidable form of `Tight` / `TeamTight` (`Proofs/TeamLimits`) -/
+def tightB (e : Env) (σ : St) (lid : Nat) (i : Int) (ro : Option Nat) (c : Int) : Bool :=
+  !((e.limitD lid).res.isSome && (e.limitD lid).res != ro) && decide (0 ≤ e.period (e.limitD lid) i) &&
+    decide ((e.limitD lid).value ≤ σ.cnt.get lid (e.period (e.limitD lid) i) + c)
+
+def teamTightB (e : Env) (σ : St) (t : Nat) (sel : List Nat) (i : Int) : Bool :=
+  sel.any (fun m => (resLimitIds e m).any (fun lid => tightB e σ lid i none ((sel.length : Int) - 1)) ||
+    (taskLimitIds e t).any (fun lid => tightB e σ lid i (some m) ((sel.length : Int) - 1)))
+
 /-- decidable form of `Framed`: the first and the last slot in which the task holds time on `r` frame the reported dates -/
 def framedB (e : Env) (σ : St) (t r : Nat) : Bool :=
   let booked := (σ.led.m.toList.filter (fun (ks : Key × Slot) => ks.1.1 == r && (usageOf ks.2.usage t).isSome)).map (fun ks => ks.1.2)
@@ -381,11 +390,11 @@ def runSched (j : Json) : Json :=
   let oneSetFail := (List.range e.tasks.size).filter (fun t =>
     let rs := ((σ.led.m.toList.filter (fun (ks : Key × Slot) => (usageOf ks.2.usage t).isSome)).map (fun ks => ks.1.1)).eraseDups
     !(rs.all (fun r => (e.taskD t).alloc.contains r) || rs.all (fun r => (e.taskD t).alt.contains r)))
-  -- C07.team_earliest_fit: unlimited forward teams
+  -- C07.team_earliest_fit: forward teams (limits allowed)
   let teamUs := anyTeams.filter (fun t =>
     let d := e.taskD t
-    !d.startProvided && d.alloc.all (fun m => (e.resD m).leaf && (resLimitIds e m).isEmpty) && (taskLimitIds e t).isEmpty &&
-      (σ.tst t).scheduled && (σ.tst t).forward)
+    !d.startProvided && d.alloc.all (fun m => (e.resD m).leaf) && (σ.tst t).scheduled && (σ.tst t).forward)
+  let teamLimited := (fun (t : Nat) => !((e.taskD t).alloc.all (fun m => (resLimitIds e m).isEmpty) && (taskLimitIds e t).isEmpty))
   let teamFitFail := teamUs.filter (fun t =>
     let sel := (e.taskD t).alloc
     let pre := (order.dropWhile (fun x => x != t)).drop 1
@@ -398,12 +407,26 @@ def runSched (j : Json) : Json :=
         let i := b + (k : Int)
         !(sel.all (fun m => e.onShift m i && !e.leaveMark m i)) ||
           sel.all (fun m => (usageOf (σ.led.get m i).usage t).isSome) ||
-          sel.any (fun m => pre.any (fun t' => (usageOf (σ.led.get m i).usage t').isSome)))))
-  -- C08.no_idle_final_alap_team: unlimited backward teams
+          sel.any (fun m => pre.any (fun t' => (usageOf (σ.led.get m i).usage t').isSome)) ||
+          teamTightB e σ t sel i)))
+  -- how often only the third case (a limit without room for the whole team) explains a skipped all-working slot
+  let teamTightSlots := (teamUs.map (fun t =>
+    let sel := (e.taskD t).alloc
+    let pre := (order.dropWhile (fun x => x != t)).drop 1
+    let booked := (σ.led.m.toList.filter (fun (ks : Key × Slot) => sel.contains ks.1.1 && (usageOf ks.2.usage t).isSome)).map (fun ks => ks.1.2)
+    let b := boundSlot e σ t
+    match booked.foldl (fun (m : Option Int) i => match m with | none => some i | some x => some (max x i)) none with
+    | none => 0
+    | some L =>
+      ((List.range (L - b + 1).toNat).filter (fun (k : Nat) =>
+        let i : Int := b + (k : Int)
+        sel.all (fun m => e.onShift m i && !e.leaveMark m i) &&
+          !sel.all (fun m => (usageOf (σ.led.get m i).usage t).isSome) &&
+          !sel.any (fun m => pre.any (fun t' => (usageOf (σ.led.get m i).usage t').isSome)))).length)).foldl (· + ·) 0
+  -- C08.no_idle_final_alap_team: backward teams (limits allowed)
   let teamUBs := anyTeams.filter (fun t =>
     let d := e.taskD t
-    d.alloc.all (fun m => (e.resD m).leaf && (resLimitIds e m).isEmpty) && (taskLimitIds e t).isEmpty &&
-      (σ.tst t).scheduled && !(σ.tst t).forward)
+    d.alloc.all (fun m => (e.resD m).leaf) && (σ.tst t).scheduled && !(σ.tst t).forward)
   let teamAlapEndFail := teamUBs.filter (fun t =>
     match (σ.tst t).stop with
     | some v => !decide (v ≤ deadlineG e (loopStart e) σ t)
@@ -419,7 +442,7 @@ def runSched (j : Json) : Json :=
         let i := L + (k : Int)
         !(sel.all (fun m => e.onShift m i && !e.leaveMark m i)) ||
           sel.all (fun m => (usageOf (σ.led.get m i).usage t).isSome) ||
-          sel.any (fun m => !(σ.led.get m i).usage.isEmpty))))
+          sel.any (fun m => !(σ.led.get m i).usage.isEmpty) || teamTightB e σ t sel i)))
   -- containers: scheduled => children scheduled and dates = min / max; all children scheduled => scheduled
   let conts := (List.range e.tasks.size).filter (fun c => !(e.taskD c).leaf && !(e.taskD c).children.isEmpty)
   let contFail := conts.filter (fun c =>
@@ -440,6 +463,9 @@ def runSched (j : Json) : Json :=
                          ("alap_end_fail", Json.num (JsonNumber.fromNat alapEndFail.length)),
                          ("fit_fail", Json.num (JsonNumber.fromNat fitFail.length)),
                          ("team_fit_tasks", Json.num (JsonNumber.fromNat teamUs.length)), ("team_fit_fail", Json.num (JsonNumber.fromNat teamFitFail.length)),
+                         ("team_fit_limited", Json.num (JsonNumber.fromNat (teamUs.filter teamLimited).length)),
+                         ("team_tight_slots", Json.num (JsonNumber.fromNat teamTightSlots)),
+                         ("team_alap_limited", Json.num (JsonNumber.fromNat (teamUBs.filter teamLimited).length)),
                          ("team_alap_tasks", Json.num (JsonNumber.fromNat teamUBs.length)), ("team_alap_idle_fail", Json.num (JsonNumber.fromNat teamAlapIdleFail.length)),
                          ("team_alap_end_fail", Json.num (JsonNumber.fromNat teamAlapEndFail.length)),
                          ("placed", Json.num (JsonNumber.fromNat order.length)), ("order_fail", Json.num (JsonNumber.fromNat ordFail.length)),
